@@ -107,29 +107,30 @@ def handler_chain(tree):
         raise Reject('username/password are not both read from config before the if')
     # body of the if: users = {username:password}; X = supervisor_auth_handler(users, X)
     wrapped = []
-    users_ok = False
+    users = None          # name of the {username:password} dictionary
     for s in ifs_stmt.body:
-        if isinstance(s, ast.Assign) and len(s.targets) == 1 and _is_name(s.targets[0], 'users'):
+        if (isinstance(s, ast.Assign) and len(s.targets) == 1 and _is_name(s.targets[0])
+                and isinstance(s.value, ast.Dict)):
             d = s.value
-            if not (isinstance(d, ast.Dict) and len(d.keys) == 1 and _is_name(d.keys[0], 'username')
-                    and _is_name(d.values[0], 'password')) or wrapped:
-                raise Reject('users is not {username:password} (line %d)' % s.lineno)
-            users_ok = True
+            if not (len(d.keys) == 1 and _is_name(d.keys[0], 'username') and _is_name(d.values[0], 'password')) \
+                    or wrapped or users is not None or s.targets[0].id in names:
+                raise Reject('credential dictionary is not {username:password} (line %d)' % s.lineno)
+            users = s.targets[0].id
             continue
         if isinstance(s, ast.Assign) and len(s.targets) == 1 and _is_name(s.targets[0]):
             t = s.targets[0].id
             c = s.value
             ok = (isinstance(c, ast.Call) and _is_name(c.func, 'supervisor_auth_handler') and len(c.args) == 2
-                  and not c.keywords and _is_name(c.args[0], 'users') and _is_name(c.args[1], t) and users_ok)
+                  and not c.keywords and users is not None and _is_name(c.args[0], users) and _is_name(c.args[1], t))
             if ok:
                 if t in wrapped:
                     raise Reject('%s wrapped twice' % t)
                 wrapped.append(t)
                 continue
-            if t in names or t in ('username', 'password', 'users'):
+            if t in names or t in ('username', 'password', users):
                 raise Reject('unexpected rebinding of %s at line %d' % (t, s.lineno))
             continue
-        if _assigned_names(s) & (set(names) | {'username', 'password', 'users'}):
+        if _assigned_names(s) & (set(names) | {'username', 'password', users}):
             raise Reject('unexpected statement rebinding a handler in the if body (line %d)' % s.lineno)
     for s in ifs_stmt.orelse:
         if _assigned_names(s) & set(names):
